@@ -2440,6 +2440,239 @@ async def c15_wait_until(w):
             "timeout-with-traffic": "returns {'trigger_type': 'timeout'} 2.5 s after the call although non-qualifying events keep arriving"}[what], "failing": bad}
 
 
+# ---------------------------------------------------------------------------------------------------------
+# C10: reload on a real directory tree against the statement's changed-set rules
+# ---------------------------------------------------------------------------------------------------------
+C10_FILES = {
+    # relative path -> (context name, autoload, imports written into the file)
+    "a.py": ("file.a", True, ["import m1"]),
+    "b.py": ("file.b", True, []),
+    "scripts/s1.py": ("scripts.s1", True, ["import m2"]),
+    "scripts/sub/s2.py": ("scripts.sub.s2", True, []),
+    "apps/app1.py": ("apps.app1", True, []),
+    "apps/app2/__init__.py": ("apps.app2", True, ["from .helper import hv"]),
+    "apps/app2/helper.py": ("apps.app2.helper", False, []),
+    "modules/m1.py": ("modules.m1", False, ["import m3"]),
+    "modules/m2/__init__.py": ("modules.m2", False, ["from .util import uv"]),
+    "modules/m2/util.py": ("modules.m2.util", False, []),
+    "modules/m3.py": ("modules.m3", False, []),
+}
+C10_IMPORT_TARGET = {"import m1": "modules.m1", "import m2": "modules.m2", "import m3": "modules.m3", "from .helper import hv": "apps.app2.helper", "from .util import uv": "modules.m2.util"}
+
+
+def c10_root(name):
+    p = name.split(".")
+    return ".".join(p[:2]) if p[0] in ("apps", "modules") else name
+
+
+async def c10_reload_bounded(w):
+    """Bounded stand-in for reload: random histories of modify / touch / create / delete / '#'-rename / app-config changes on
+    a real directory tree, each followed by the REAL load_scripts; the loaded contexts, their sources and which context
+    objects survived are compared with the statement's rules computed independently."""
+    import os, random, shutil, tempfile
+    from custom_components.pyscript import load_scripts, start_global_contexts
+    from custom_components.pyscript.global_ctx import GlobalContextMgr
+    rng = random.Random(1010 + int(w.get("seed", 0)))
+    n_hist = int(w.get("histories", 40))
+    failures, cases = [], 0
+    hass = await boot_full()
+    tmp = tempfile.mkdtemp(prefix="c10_")
+    hass.config.path = lambda *a: os.path.join(tmp, *a)
+    root = os.path.join(tmp, "pyscript")
+
+    def body(rel, version):
+        ctx, auto, imps = C10_FILES[rel]
+        lines = list(imps) + [f"version = {version}"]
+        if "from .helper import hv" in imps or rel.endswith("helper.py"):
+            lines.append("hv = 1")
+        if rel.endswith("util.py") or "from .util import uv" in imps:
+            lines.append("uv = 1")
+        return "\n".join(lines) + "\n"
+    try:
+        for h in range(n_hist):
+            # fresh world
+            for name, _ in list(GlobalContextMgr.items()):
+                if name.split(".")[0] in ("file", "apps", "modules", "scripts"):
+                    GlobalContextMgr.delete(name)
+            shutil.rmtree(root, ignore_errors=True)
+            os.makedirs(root)
+            tree = {}       # rel -> (version, mtime) for files that exist un-commented
+            hidden = set()  # rel paths currently renamed with '#'
+            clock = [1000.0]
+            apps_cfg = {"app1": {"k": 1}, "app2": {"k": 1}}
+
+            def write(rel, version):
+                path = os.path.join(root, rel)
+                os.makedirs(os.path.dirname(path), exist_ok=True)
+                with open(path, "w", encoding="utf-8") as f:
+                    f.write(body(rel, version))
+                clock[0] += 10
+                os.utime(path, (clock[0], clock[0]))
+                tree[rel] = (version, clock[0])
+            for rel in C10_FILES:
+                if rng.random() < 0.85:
+                    write(rel, 1)
+            model = {}   # ctx name -> {"obj": id, "imports": set, "src": str, "mtime":, "cfg":}
+            log = []
+            for step in range(int(w.get("steps", 5))):
+                # a few edits, then a reload
+                for _e in range(rng.choice([0, 1, 1, 2])):
+                    op = rng.choice(["modify", "touch", "create", "delete", "hash", "unhash", "cfg"])
+                    rels = sorted(C10_FILES)
+                    rel = rng.choice(rels)
+                    path = os.path.join(root, rel)
+                    if op == "modify" and rel in tree:
+                        write(rel, tree[rel][0] + 1)
+                    elif op == "touch" and rel in tree:
+                        clock[0] += 10
+                        os.utime(path, (clock[0], clock[0]))
+                        tree[rel] = (tree[rel][0], clock[0])
+                    elif op == "create" and rel not in tree and rel not in hidden:
+                        write(rel, 1)
+                    elif op == "delete" and rel in tree:
+                        os.remove(path)
+                        del tree[rel]
+                    elif op == "hash" and rel in tree:
+                        os.rename(path, os.path.join(os.path.dirname(path), "#" + os.path.basename(path)))
+                        hidden.add(rel)
+                        tree.pop(rel)
+                    elif op == "unhash" and hidden:
+                        rel = rng.choice(sorted(hidden))
+                        path = os.path.join(root, rel)
+                        hp = os.path.join(os.path.dirname(path), "#" + os.path.basename(path))
+                        if not os.path.exists(path):
+                            os.rename(hp, path)
+                            hidden.discard(rel)
+                            tree[rel] = (int(open(path).read().split("version = ")[1].split()[0]), os.path.getmtime(path))
+                    elif op == "cfg":
+                        app = rng.choice(["app1", "app2"])
+                        if app in apps_cfg and rng.random() < 0.5:
+                            del apps_cfg[app]
+                        else:
+                            apps_cfg[app] = {"k": rng.randrange(3)}
+                    log.append((op, rel))
+                arg = rng.choice([None, None, None, "*", "file.a", "modules.m1"])
+                # ---------------- reference
+                files = {}
+                for rel, (ver, mt) in tree.items():
+                    ctx, auto, imps = C10_FILES[rel]
+                    if ctx.startswith("apps."):
+                        app = ctx.split(".")[1]
+                        if app not in apps_cfg:
+                            continue     # apps (all their files) count only when configured
+                    files[ctx] = {"rel": rel, "auto": auto, "src": body(rel, ver), "mtime": mt,
+                                  "cfg": apps_cfg.get(ctx.split(".")[1]) if ctx.startswith("apps.") and len(ctx.split(".")) == 2 else None}
+                before = dict(model)
+                if arg == "*":
+                    discard = set(before)
+                    force = set(files)
+                elif arg is not None:
+                    if arg not in before and arg not in files:
+                        log.append(("reload-unknown", arg))
+                        continue
+                    discard = {arg}      # the named context is re-executed (or unloaded when its file is gone)
+                    force = {arg} if arg in files else set()
+                else:
+                    discard = {c for c in before if c not in files}
+                    force = set()
+                    for c, f in files.items():
+                        if c in before:
+                            if f["src"] != before[c]["src"] or f["mtime"] != before[c]["mtime"] or f["cfg"] != before[c]["cfg"]:
+                                discard.add(c)
+                                force.add(c)
+                        elif f["auto"]:
+                            force.add(c)
+                # importers of reloaded module roots (recorded imports, transitively)
+                roots = {c10_root(c) for c in files if c.startswith("modules.") and (c in discard or c in force)}
+
+                def closure(c, seen):
+                    out = set()
+                    for i in before.get(c, {}).get("imports", ()):
+                        if i not in seen:
+                            seen.add(i)
+                            out.add(i)
+                            out |= closure(i, seen)
+                    return out
+                if roots:
+                    for c in before:
+                        if any(c10_root(i) in roots for i in closure(c, set())):
+                            discard.add(c)
+                            if c in files:
+                                force.add(c)
+                # package widening
+                for r in {c10_root(c) for c in force if c.split(".")[0] in ("apps", "modules")}:
+                    for c in files:
+                        if c == r or c.startswith(r + "."):
+                            discard.add(c)
+                            force.discard(c)
+                            if files[c]["rel"] in (r.replace(".", "/") + "/__init__.py", r.replace(".", "/") + ".py"):
+                                force.add(c)
+                kept = {c for c in before if c not in discard}
+                load_now = sorted(c for c in force if files[c]["auto"])
+                # expected loaded set: kept + loaded now + the modules those import that are not loaded (lazily, transitively)
+                expect = set(kept)
+                new_imports = {}
+
+                def do_load(c):
+                    expect.add(c)
+                    imps = set()
+                    for stmt in C10_FILES[files[c]["rel"]][2]:
+                        tgt = C10_IMPORT_TARGET[stmt]
+                        if tgt in expect:
+                            imps.add(tgt)
+                        elif tgt in files:
+                            do_load(tgt)
+                            imps.add(tgt)
+                        else:
+                            new_imports[c] = "IMPORT-FAILS"
+                            return False
+                    if new_imports.get(c) != "IMPORT-FAILS":
+                        new_imports[c] = imps
+                    return True
+                failed_loads = set()
+                for c in load_now:
+                    if c in expect and c not in kept:
+                        continue
+                    if not do_load(c):
+                        failed_loads.add(c)
+                # ---------------- real
+                objs_before = {name: ctx for name, ctx in GlobalContextMgr.items()}
+                await load_scripts(hass, {"apps": dict(apps_cfg), "allow_all_imports": False, "hass_is_global": False}, global_ctx_only=arg)
+                start_global_contexts(global_ctx_only=arg)
+                await settle(10)
+                got = {name: ctx for name, ctx in GlobalContextMgr.items() if name.split(".")[0] in ("file", "apps", "modules", "scripts")}
+                cases += 1
+                if failed_loads or any(v == "IMPORT-FAILS" for v in new_imports.values()):
+                    # an import of a missing module: error handling of partially loaded scripts is C18's business; resync the model
+                    model = {n: {"obj": c, "imports": set(c.get_imports()), "src": c.get_source(), "mtime": c.get_mtime(), "cfg": c.get_app_config()} for n, c in got.items()}
+                    continue
+                problems = []
+                if set(got) != expect:
+                    problems.append({"loaded": sorted(got), "expected_loaded": sorted(expect)})
+                for c in kept & set(got):
+                    if got[c] is not before[c]["obj"]:
+                        problems.append({"re-created-although-untouched": c})
+                for c in (set(got) & set(before)) - kept:
+                    if got[c] is before[c]["obj"]:
+                        problems.append({"kept-although-changed": c})
+                for c, ctx in got.items():
+                    if arg not in (None, "*") and c != arg:
+                        continue    # a named reload leaves other changed files for the next default reload (documented)
+                    if c in files and ctx.get_source() is not None and ctx.get_source() != files[c]["src"]:
+                        problems.append({"stale-source": c})
+                    if c in files and ctx.global_sym_table.get("version") != int(files[c]["src"].split("version = ")[1].split()[0]):
+                        problems.append({"stale-variables": c, "version": ctx.global_sym_table.get("version")})
+                if problems and len(failures) < 3:
+                    failures.append({"signature": f"reload:{h}:{step}:{arg}", "history": log[-8:], "reload": arg, "problems": problems[:4]})
+                model = {n: {"obj": c, "imports": set(c.get_imports()), "src": c.get_source() if c.get_source() is not None else files.get(n, {}).get("src"),
+                             "mtime": c.get_mtime() if c.get_mtime() is not None else files.get(n, {}).get("mtime"), "cfg": c.get_app_config()} for n, c in got.items()}
+    finally:
+        shutil.rmtree(tmp, ignore_errors=True)
+    await shutdown()
+    return {"unit": "load_scripts + GlobalContext.module_import + start_global_contexts on a real tree", "method": "random edit/reload histories vs the statement's changed-set rules",
+            "bound": f"{n_hist} histories x <= {w.get('steps', 5)} reloads over {len(C10_FILES)} files", "cases": cases, "failures": failures, "reproduced": bool(failures)}
+
+
 SCENARIOS = {k: v for k, v in list(globals().items()) if asyncio.iscoroutinefunction(v) and k[0] == "c"}
 
 if __name__ == "__main__":
